@@ -604,6 +604,23 @@ def engine_c16(prop, tier, seed, work):
     return res
 
 
+# C15 (failed registrations leave the loop intact): a failing adapt_io must not disturb anybody else, leak a slot or
+# leave the fd non-blocking
+FAILED_ADAPT_CLAUSES = {"failed_adapt_disturbed_live_adapter", "slot_leaked", "blocking_mode_not_restored"}
+
+
+def engine_c15(prop, tier, seed, work):
+    res = engine(PROP, tier, seed, work)
+    keep = []
+    for v in res.viol:
+        cl = [c for c in v["clauses"] if c in FAILED_ADAPT_CLAUSES]
+        if cl:
+            keep.append(dict(v, prop=prop, clauses=cl))
+    res.viol = keep
+    res.notes.append("Async adapters (engine asyncio): only the clauses %s count for %s" % (sorted(FAILED_ADAPT_CLAUSES), prop))
+    return res
+
+
 def replay(prop, rp, work):
     """re-run the scenario of a replay file written by this engine on the current tree and validate it again"""
     res = check.Result()
